@@ -730,6 +730,10 @@ namespace Pistache::Http
                 throw Error("Response exceeded buffer size");
             os << crlf;
         }
+        else
+        {
+            throw Error("Response exceeded buffer size");
+        }
     }
 
     ResponseStream& ResponseStream::operator=(ResponseStream&& other)
@@ -753,6 +757,10 @@ namespace Pistache::Http
         os << std::hex << sz << crlf;
         os.write(data, sz);
         os << crlf;
+        // the buffer holds at most the maximum response size between two flushes: a chunk that
+        // does not fit must not go out cut short under the size it announces
+        if (!os)
+            throw Error("Response exceeded buffer size");
         return sz;
     }
 
